@@ -7,6 +7,7 @@ import (
 	"go/types"
 	"sort"
 	"strings"
+	"sync"
 
 	"golang.org/x/tools/go/ssa"
 )
@@ -401,6 +402,9 @@ func reachableVia(f *ssa.Function, from, via *ssa.BasicBlock, cut []edge) map[*s
 		if cur.via != nil {
 			okT, okF = feasibleSuccsH(b, []*ssa.BasicBlock{cur.via, cur.via2, cur.via3})
 		}
+		if aT, aF, decided := assumedSuccs(b); decided {
+			okT, okF = okT && aT, okF && aF
+		}
 		for i, s := range b.Succs {
 			if cutset[edge{b, i}] {
 				continue
@@ -478,14 +482,14 @@ func truthiness(v ssa.Value, at *ssa.BasicBlock) int { return truthinessD(v, at,
 
 // assumeTruth: values assumed non-nil (+1) / nil (-1) for the duration of one query (set and cleared by the
 // caller; the checker is single-threaded per program).
-var assumeTruth = map[ssa.Value]int{}
+var assumeTruth sync.Map // ssa.Value -> int (values of different programs never collide; controls run in parallel)
 
 func truthinessD(v ssa.Value, at *ssa.BasicBlock, depth int) int {
 	if depth > 4 {
 		return 0
 	}
-	if t, ok := assumeTruth[v]; ok {
-		return t
+	if t, ok := assumeTruth.Load(v); ok {
+		return t.(int)
 	}
 	switch x := v.(type) {
 	case *ssa.Const:
@@ -525,13 +529,19 @@ func truthinessD(v ssa.Value, at *ssa.BasicBlock, depth int) int {
 				return 1
 			}
 		}
+	case *ssa.UnOp:
+		// a package-level error variable that is set once, in the package initialiser, to a non-nil error
+		if g, ok := x.X.(*ssa.Global); ok && x.Op == token.MUL && globalSetOnceNonNil(g) {
+			return 1
+		}
 	case *ssa.Phi:
 		// every incoming value has the same known truthiness
 		if len(x.Edges) == len(x.Block().Preds) && len(x.Edges) > 0 {
-			t0 := 0
+			t0, uniform := 0, true
 			for i, e := range x.Edges {
 				if e == v {
-					return 0
+					uniform = false
+					break
 				}
 				var t int
 				switch ev := e.(type) {
@@ -541,11 +551,15 @@ func truthinessD(v ssa.Value, at *ssa.BasicBlock, depth int) int {
 					t = truthinessD(e, x.Block().Preds[i], depth+1)
 				}
 				if t == 0 || (t0 != 0 && t != t0) {
-					return 0
+					uniform = false
+					break
 				}
 				t0 = t
 			}
-			return t0
+			if uniform {
+				return t0
+			}
+			// mixed: a test of the phi on the way to `at` may still decide it (below)
 		}
 	}
 	// decided by a test that guards the only way into `at` (a chain of single-predecessor blocks)
@@ -1257,6 +1271,33 @@ func litFields(v ssa.Value) (map[string][]ssa.Value, *ssa.Alloc) {
 	return out, al
 }
 
+// litFieldsAt: as litFields, counting only the stores that can execute before the use (a struct that is built
+// once and then has a field changed inside a loop holds the loop's value only at the uses the loop reaches).
+func litFieldsAt(v ssa.Value, use ssa.Instruction) (map[string][]ssa.Value, *ssa.Alloc) {
+	if u, ok := v.(*ssa.UnOp); ok && u.Op == token.MUL {
+		v = u.X
+	}
+	if mi, ok := v.(*ssa.MakeInterface); ok {
+		return litFieldsAt(mi.X, use)
+	}
+	al, ok := v.(*ssa.Alloc)
+	if !ok {
+		return nil, nil
+	}
+	out := map[string][]ssa.Value{}
+	for _, r := range *al.Referrers() {
+		if fa, ok := r.(*ssa.FieldAddr); ok {
+			n := fieldName(al.Type(), fa.Field)
+			for _, st := range storesTo(fa) {
+				if use == nil || st.Parent() != use.Parent() || mayPrecede(st, use) {
+					out[n] = append(out[n], st.Val)
+				}
+			}
+		}
+	}
+	return out, al
+}
+
 // ---- condition atoms and region cuts ---------------------------------------
 
 // atomsOf collects what a (condition) value is computed from: "field:NAME",
@@ -1278,6 +1319,15 @@ func atomsOf(v ssa.Value) map[string]bool {
 			} else {
 				out["const:nil"] = true
 			}
+		case *ssa.Field:
+			out["field:"+fieldName(x.X.Type(), x.Field)] = true
+			if srcs := fieldSources(v); len(srcs) != 1 || srcs[0] != v {
+				for _, sv := range srcs {
+					walk(sv, depth+1)
+				}
+				return
+			}
+			walk(x.X, depth+1)
 		case *ssa.Parameter:
 			out["param:"+refParamName(x)] = true
 		case *ssa.FreeVar:
@@ -1289,11 +1339,17 @@ func atomsOf(v ssa.Value) map[string]bool {
 			walk(x.X, depth+1)
 			walk(x.Y, depth+1)
 		case *ssa.UnOp:
+			if fa, isFA := x.X.(*ssa.FieldAddr); isFA && x.Op == token.MUL {
+				if srcs := fieldSources(v); len(srcs) != 1 || srcs[0] != v {
+					out["field:"+fieldName(fa.X.Type(), fa.Field)] = true
+					for _, sv := range srcs {
+						walk(sv, depth+1)
+					}
+					return
+				}
+			}
 			walk(x.X, depth+1)
 		case *ssa.FieldAddr:
-			out["field:"+fieldName(x.X.Type(), x.Field)] = true
-			walk(x.X, depth+1)
-		case *ssa.Field:
 			out["field:"+fieldName(x.X.Type(), x.Field)] = true
 			walk(x.X, depth+1)
 		case *ssa.Call:
@@ -1637,9 +1693,9 @@ func failsClosed(f *ssa.Function, c ssa.CallInstruction) (bool, string) {
 							continue
 						}
 						merged = true
-						assumeTruth[a] = 1
+						assumeTruth.Store(a, 1)
 						reach := reachableVia(f, phi.Block(), phi.Block().Preds[i], nil)
-						delete(assumeTruth, a)
+						assumeTruth.Delete(a)
 						for _, s := range errReturnSites(f) {
 							if !isNilConst(s.val) {
 								continue
@@ -2283,11 +2339,14 @@ func funcValuesOf(v ssa.Value) []*ssa.Function {
 	seen := map[ssa.Value]bool{}
 	add := func(g *ssa.Function) {
 		// `x.m` as a value: a synthetic wrapper that calls the method
-		if g.Synthetic != "" && strings.HasSuffix(g.Name(), "$bound") && len(g.Blocks) > 0 {
-			for _, c := range callsIn(g) {
-				if sc := c.Common().StaticCallee(); sc != nil && sc.Name() == strings.TrimSuffix(g.Name(), "$bound") {
-					g = sc
-					break
+		// `x.m` / `T.m` as a value: a synthetic wrapper that calls the method
+		for _, suf := range []string{"$bound", "$thunk"} {
+			if g.Synthetic != "" && strings.HasSuffix(g.Name(), suf) && len(g.Blocks) > 0 {
+				for _, c := range callsIn(g) {
+					if sc := c.Common().StaticCallee(); sc != nil && sc.Name() == strings.TrimSuffix(g.Name(), suf) {
+						g = sc
+						break
+					}
 				}
 			}
 		}
@@ -2599,4 +2658,132 @@ func fieldSources(v ssa.Value) []ssa.Value {
 		return []ssa.Value{v}
 	}
 	return out
+}
+
+var globalNonNilCache sync.Map // *ssa.Global -> bool
+
+// globalSetOnceNonNil: the only store to g in its package is in the package initialiser and stores a value that
+// cannot be nil (errors.New, fmt.Errorf, a MakeInterface).
+func globalSetOnceNonNil(g *ssa.Global) bool {
+	if v, ok := globalNonNilCache.Load(g); ok {
+		return v.(bool)
+	}
+	res := false
+	if g.Pkg != nil {
+		n, good := 0, 0
+		var scan func(f *ssa.Function)
+		scan = func(f *ssa.Function) {
+			for _, b := range f.Blocks {
+				for _, in := range b.Instrs {
+					if st, ok := in.(*ssa.Store); ok && st.Addr == ssa.Value(g) {
+						n++
+						if f.Name() == "init" && f.Parent() == nil {
+							switch v := st.Val.(type) {
+							case *ssa.MakeInterface:
+								good++
+							case *ssa.Call:
+								if cn := calleeName(v); cn == "errors.New" || cn == "fmt.Errorf" {
+									good++
+								}
+							}
+						}
+					}
+				}
+			}
+			for _, a := range f.AnonFuncs {
+				scan(a)
+			}
+		}
+		for _, m := range g.Pkg.Members {
+			if f, ok := m.(*ssa.Function); ok {
+				scan(f)
+			}
+		}
+		prog := g.Pkg.Prog
+		for _, m := range g.Pkg.Members {
+			if t, ok := m.(*ssa.Type); ok {
+				for _, tt := range []types.Type{t.Type(), types.NewPointer(t.Type())} {
+					ms := prog.MethodSets.MethodSet(tt)
+					for i := 0; i < ms.Len(); i++ {
+						if f := prog.MethodValue(ms.At(i)); f != nil && f.Pkg == g.Pkg {
+							scan(f)
+						}
+					}
+				}
+			}
+		}
+		res = n == 1 && good == 1
+	}
+	globalNonNilCache.Store(g, res)
+	return res
+}
+
+// assumedSuccs: a branch that tests a value under an assumption (assumeTruth) directly is left only through the
+// successor that agrees with it.
+func assumedSuccs(b *ssa.BasicBlock) (onTrue, onFalse, decided bool) {
+	if len(b.Instrs) == 0 || len(b.Succs) != 2 {
+		return true, true, false
+	}
+	ifi, ok := b.Instrs[len(b.Instrs)-1].(*ssa.If)
+	if !ok {
+		return true, true, false
+	}
+	base, pos := testedValue(ifi.Cond)
+	t, ok := assumeTruth.Load(base)
+	if !ok {
+		return true, true, false
+	}
+	condTrue := (t.(int) > 0) == pos
+	return condTrue, !condTrue, true
+}
+
+// mustSucceedBefore: no target is reached unless one of the calls succeeded (or one of the other edges was taken):
+// (i) with the calls' blocks removed (and the other edges cut) no target is reachable; (ii) from a call whose error
+// is assumed non-nil no target is reachable. Unlike cutting the success edges of a direct nil test, this does not
+// care whether the error is tested where it is produced or after it was merged into the result of a helper.
+func mustSucceedBefore(f *ssa.Function, calls []ssa.CallInstruction, other []edge, targets []*ssa.BasicBlock) (bool, string) {
+	if len(calls) == 0 {
+		return false, "no such call"
+	}
+	avoid := map[*ssa.BasicBlock]bool{}
+	for _, c := range calls {
+		avoid[c.Block()] = true
+	}
+	reach := reachableAvoiding(f, nil, other, avoid)
+	for _, t := range targets {
+		if reach[t] {
+			return false, "reachable without passing the call"
+		}
+	}
+	for _, c := range calls {
+		if ok, why := noTargetAfterFailure(f, c, targets); !ok {
+			return false, why
+		}
+	}
+	return true, ""
+}
+
+// noTargetAfterFailure: from call c, with its error result assumed non-nil, no target block is reachable.
+func noTargetAfterFailure(f *ssa.Function, c ssa.CallInstruction, targets []*ssa.BasicBlock) (bool, string) {
+	evs := errValues(c)
+	if len(evs) == 0 {
+		return false, "the call has no error result"
+	}
+	var assumed []ssa.Value
+	for _, ev := range evs {
+		for _, a := range aliasesOf(ev) {
+			assumeTruth.Store(a, 1)
+			assumed = append(assumed, a)
+		}
+	}
+	r2 := reachable(f, c.Block(), nil)
+	for _, a := range assumed {
+		assumeTruth.Delete(a)
+	}
+	for _, t := range targets {
+		if r2[t] {
+			return false, "reachable after the call failed"
+		}
+	}
+	return true, ""
 }
